@@ -41,7 +41,17 @@ def run_real(rp, events, descr):
     try:
         p = object.__new__(Popen)
         p._log, p._prof = rpload.NullLog(), rpload.NullLog()
-        p._to_tasks, p._to_lock = [], mt.Lock()
+        class HookLock(object):
+            """`_to_lock`; when the watcher thread leaves its critical section a registration that was waiting for the
+            lock on another thread gets it at once (`at_release` is that registration)"""
+            def __init__(self): self.lock, self.at_release, self.watcher = mt.Lock(), None, None
+            def __enter__(self): self.lock.acquire(); return self
+            def __exit__(self, *a):
+                self.lock.release()
+                if self.at_release and mt.current_thread() is self.watcher:
+                    fn, self.at_release = self.at_release, None
+                    fn()
+        p._to_tasks, p._to_lock = [], HookLock()
         gate = PassGate()
         p._term = gate
         tasks = {u: {'uid': 'task.%06d' % u, 'description': {'startup_timeout': float(d[0]), 'timeout': float(d[1])}}
@@ -55,6 +65,7 @@ def run_real(rp, events, descr):
             alive.discard(u)            # Popen.cancel_task takes the task out of the executor's _tasks
         p.cancel_task = cancel_task
         th = mt.Thread(target=p._to_watcher, daemon=True)
+        p._to_lock.watcher = th
         th.start()
         gate.idle.acquire()                 # the loop is at its first check
         out = []
@@ -66,9 +77,14 @@ def run_real(rp, events, descr):
                 p.control_cb('control', {'cmd': 'task_startup_done', 'arg': {'uid': tasks[ev[2]]['uid']}}); out.append([])
             else:
                 del canceled[:]
+                if ev[1] == 'pass_reg':
+                    # the task is launched while the watcher takes in what was handed to it: handle_timeout gets the
+                    # lock the moment the watcher releases it
+                    p._to_lock.at_release = lambda u=ev[2]: p.handle_timeout(tasks[u])
                 gate.go.release()           # one pass
                 gate.idle.acquire()
                 out.append(list(canceled))
+                if ev[1] == 'pass_reg': out.append([])
         gate.stop = True
         gate.go.release()
         th.join(5)
@@ -86,7 +102,8 @@ def gen(rng):
         r = rng.random()
         cand = [u for u in range(n) if u not in regd]
         if r < 0.3 and cand:
-            u = rng.choice(cand); regd.add(u); events.append([t, 'reg', u])
+            u = rng.choice(cand); regd.add(u)
+            events.append([t, 'pass_reg', u] if rng.random() < 0.4 else [t, 'reg', u])
         elif r < 0.5 and regd:
             # a task reports its startup once it runs (after it was launched, i.e. after handle_timeout); repeated
             # reports are possible (several ranks)
@@ -100,7 +117,10 @@ def gen(rng):
 def model_op(case):
     evs = []
     for ev in case['events']:
-        if ev[1] == 'reg':
+        if ev[1] == 'pass_reg':
+            # for the model: a pass, then the registration (it is what the next pass takes in)
+            d = case['descr'][str(ev[2])]; evs.append([ev[0], 'pass']); evs.append([ev[0], 'reg', ev[2], d[0], d[1]])
+        elif ev[1] == 'reg':
             d = case['descr'][str(ev[2])]; evs.append([ev[0], 'reg', ev[2], d[0], d[1]])
         elif ev[1] == 'done':
             d = case['descr'][str(ev[2])]; evs.append([ev[0], 'done', ev[2], d[1]])
@@ -109,11 +129,20 @@ def model_op(case):
     return {'op': 'timeout', 'events': evs}
 
 
+def expand(events):
+    """a registration that gets the lock when the watcher releases it is, for what follows, a pass and then a registration"""
+    out = []
+    for ev in events:
+        if ev[1] == 'pass_reg': out += [[ev[0], 'pass'], [ev[0], 'reg', ev[2]]]
+        else: out.append(ev)
+    return out
+
+
 def monitor(case, out):
     descr = {int(u): d for u, d in case['descr'].items()}
     deadline = {}          # uid -> active deadline (None: no deadline)
     gone = set()
-    for ev, o in zip(case['events'], out):
+    for ev, o in zip(expand(case['events']), out):
         t = ev[0]
         if ev[1] == 'reg':
             st, et = descr[ev[2]]
@@ -133,6 +162,11 @@ def monitor(case, out):
                             'task %d (startup_timeout %s, timeout %s) cancelled at t=%d; its deadline then: %s'
                             % (u, st, et, t, d))
                 gone.add(u)
+            # a run-time limit that has passed is enforced at this pass
+            late = [u for u, d in deadline.items() if d is not None and t > d and u not in gone]
+            if late:
+                return ('timeout-watcher:expired-timeout-not-enforced',
+                        'pass at t=%d: tasks %s are past their deadlines %s and were not cancelled' % (t, late, [deadline[u] for u in late]))
     return None
 
 
